@@ -4,8 +4,8 @@
  * the ownership predicates; src/task.c (free_echs_task, echs_task_rset_ownr).
  * A history of NOP operations {add/replace, cancel, look-up} by two peer uids over
  * three symbolic 64-bit oids, checked against a 3-entry reference map kept here. */
-#define ECHS_TASK_POOL_INIZ	(1U)
-#define ECHS_CHLD_POOL_INIZ	(1U)
+#define ECHS_TASK_POOL_INIZ	(4U)
+#define ECHS_CHLD_POOL_INIZ	(1U)	/* one allocation for the whole run: pool growth means malloc() of a symbolic size */
 #define ENV_MAXP 4
 #include "echsd_env.h"
 
@@ -36,6 +36,7 @@ static struct echs_task_s *ref_task[NOID];
 void harness(void)
 {
 	sym_load();
+	ENV_INIT();
 	for (unsigned k = 0; k < NOID; k++) {
 		ASSUME(in.oid[k] != 0);
 		for (unsigned j = 0; j < k; j++) ASSUME(in.oid[k] != in.oid[j]);
